@@ -833,3 +833,29 @@ class MarkerWorld:
             i = R.randrange(len(out) + 1)
             out = out[:i] + bytes([255, R.choice([251, 253, 253, 254]), R.choice([1, 3, 24, 99])]) + out[i:]
         return out
+
+
+# ---------------------------------------------------------------------------------------------------------------
+# the id-wrap scenario (C11, finding F17): one session stays connected while the client id sequence comes round
+
+def simulate_idwrap(wrap, conf='mixp'):
+    """session A connects (id 1) and stays; the id sequence is moved to wrap-2 (`J`: as if that many connections had come and
+    gone); four more sessions connect.  Returns the sim dict; not compared with the model (whose counter is unbounded)."""
+    binary = build()
+    cpath = conf_path(conf)
+    errpath = os.path.join(tree_dir(), 'udmn.err.idwrap.%d' % os.getpid())
+    p, dump, c_op = run_c(binary, cpath, None, 0, errpath)
+    ops = ["I 0 0 0", "P 1000 1 0 0", "J %d" % (wrap - 2)] + ["P %d 1 0 0" % (2000 + 1000 * k) for k in range(4)] + ["P 9000 0 0 0"]
+    couts = []; xsl = []; sent = []; died = False
+    pend = None
+    for op in ops:
+        if op.startswith("J "):
+            p.stdin.write((op + "\n").encode()); continue      # no answer: it is consumed together with the next op
+        res = c_op(op)
+        sent.append(op); xsl.append([l for l in res if l.startswith("X ")]); couts.append([l for l in res if not l.startswith("X ")])
+        if "DIED" in res: died = True; break
+    try: p.stdin.close()
+    except Exception: pass
+    p.wait()
+    err = open(errpath).read(); os.unlink(errpath)
+    return dict(seed=0, conf=conf, dump=dump, ops=sent, couts=couts, xs=xsl, stats=collections.Counter(), died=died, stderr=err[-4000:], rc=p.returncode, teardown=None, wrap=wrap)
